@@ -39,7 +39,14 @@ class Word(enum.Enum):
     X = "x"
 
 
-ENUMS = {"Plain": Plain, "Level": Level, "Perm": Perm, "Word": Word}
+class Digits(enum.Enum):
+    ZERO = "0"
+    ONE = "1"
+    YES = "true"
+    NIL = "null"
+
+
+ENUMS = {"Plain": Plain, "Level": Level, "Perm": Perm, "Word": Word, "Digits": Digits}
 
 # leaf kinds: (field factory, value pool as JSON-able specs, exact round trip?)
 LEAVES = {
@@ -62,9 +69,15 @@ LEAVES = {
     "string": (lambda: String(), ["", "a", "True"], True),
     "float": (lambda: Float(), [["float", "0.0"], ["float", "2.5"]], True),
     "boolean": (lambda: Boolean(), [False, True], True),
+    # string-like values whose TEXT is itself a JSON document (a compact wrapper's serialized form is the bare string)
+    "string-jsonlike": (lambda: String(), ["0", "true", "null", "[1, 2]", '"q"', "1.5", "{}", "-3"], True),
+    "enum-by-value:Digits": (lambda: Enum(values=Digits, serialization_by_value=True),
+                             [["enum", "Digits", "ZERO"], ["enum", "Digits", "YES"], ["enum", "Digits", "NIL"], ["enum", "Digits", "ONE"]], True),
+    "date-compact": (lambda: DateField(date_format="%Y%m%d"), [["date", 2020, 2, 29], ["date", 1999, 12, 1]], True),
 }
+JSONLIKE_LEAVES = ("string-jsonlike", "enum-by-value:Digits", "date-compact")
 WRAPS = ["bare", "bare", "optional", "array", "deque", "set", "map", "tuple2", "array-of-array", "map-of-array",
-         "anyof-then-int", "array-of-optional", "map-of-optional"]
+         "anyof-then-int", "array-of-optional", "map-of-optional", "optional-union"]
 UNHASHABLE_IN_SET = ()
 
 
@@ -105,6 +118,8 @@ def build_field(leaf, wrap):
         return Map[String(), Array[mk()]]
     if wrap == "anyof-then-int":          # the value belongs to a LATER option than the leaf
         return AnyOf[mk(), Integer()]
+    if wrap == "optional-union":          # two non-None options and None: the value may belong to either
+        return AnyOf[mk(), Integer(), NoneField()]
     if wrap == "array-of-optional":
         return Array[AnyOf[mk(), NoneField()]]
     if wrap == "map-of-optional":
@@ -134,6 +149,8 @@ def build_value(leaf, wrap, picks):
         return {"a": list(vals), "b": []}
     if wrap == "anyof-then-int":
         return [0, 3, vals[0]][picks[0] % 3]
+    if wrap == "optional-union":
+        return [vals[0], 3, vals[0]][picks[0] % 3]
     if wrap == "array-of-optional":
         return [None] + list(vals) + [None]
     if wrap == "map-of-optional":
@@ -150,9 +167,9 @@ def gen_cases(rng, n):
         for fi in range(nf):
             leaf = rng.choice(leaves)
             wrap = rng.choice(WRAPS)
-            picks = [rng.randrange(8) for _ in range(rng.choice([0, 1, 2, 3]) if wrap not in ("bare", "optional", "tuple2", "anyof-then-int") else 1)]
+            picks = [rng.randrange(8) for _ in range(rng.choice([0, 1, 2, 3]) if wrap not in ("bare", "optional", "tuple2", "anyof-then-int", "optional-union") else 1)]
             fields.append({"name": f"f{fi}", "leaf": leaf, "wrap": wrap, "picks": picks,
-                           "unset": wrap == "optional" and rng.random() < 0.3})
+                           "unset": wrap in ("optional", "optional-union") and rng.random() < 0.3})
         cases.append({"suite": "extras", "fields": fields, "ignore_none": rng.random() < 0.2,
                       "nested": rng.random() < 0.25})
     # compact single-field wrappers (one required field, no additional properties), the flag declared by the class
@@ -174,8 +191,14 @@ def directed_cases():
     for leaf in sorted(LEAVES):
         for wrap in sorted(set(WRAPS)):
             out.append({"suite": "extras", "fields": [{"name": "f0", "leaf": leaf, "wrap": wrap,
-                                                       "picks": [0, 1] if wrap not in ("bare", "optional", "tuple2") else [0],
+                                                       "picks": [0, 1] if wrap not in ("bare", "optional", "tuple2", "optional-union") else [0],
                                                        "unset": False}], "ignore_none": False, "nested": False})
+    # compact single-field wrappers whose compact form is a bare string that READS like a JSON document
+    for leaf in JSONLIKE_LEAVES + ("string", "enum-by-value:Word", "datestring", "date", "timestring"):
+        for pick in range(len(LEAVES[leaf][1])):
+            for mode in ("own", "inherited"):
+                out.append({"suite": "extras", "fields": [{"name": "f0", "leaf": leaf, "wrap": "bare", "picks": [pick], "unset": False}],
+                            "ignore_none": False, "nested": False, "compact": mode})
     return out
 
 
@@ -209,7 +232,7 @@ def run_impl(case):
             exact = exact and LEAVES[f["leaf"]][2]
             if not f.get("unset"):
                 kw[f["name"]] = build_value(f["leaf"], f["wrap"], f["picks"] or [0])
-        body["_required"] = [f["name"] for f in case["fields"] if f["wrap"] != "optional"]
+        body["_required"] = [f["name"] for f in case["fields"] if f["wrap"] not in ("optional", "optional-union")]
         if case.get("ignore_none"):
             body["_ignore_none"] = True
         if case.get("compact"):
@@ -370,7 +393,7 @@ def run_corrupt(case):
         body[f["name"]] = build_field(f["leaf"], f["wrap"])
         if not f.get("unset"):
             kw[f["name"]] = build_value(f["leaf"], f["wrap"], f["picks"] or [0])
-    body["_required"] = [f["name"] for f in case["fields"] if f["wrap"] != "optional"]
+    body["_required"] = [f["name"] for f in case["fields"] if f["wrap"] not in ("optional", "optional-union")]
     cls = type("X", (Structure,), body)
     doc = json.loads(json.dumps(Serializer(cls(**kw)).serialize()))
     fi, ci, which = case["corrupt"]
@@ -414,7 +437,8 @@ def judge_corrupt(case, impl):
 SHAPES = {"bare": "L", "optional": ("opt", "L"), "array": ("arr", "L"), "deque": ("deq", "L"), "set": ("set", "L"),
           "map": ("map", "L"), "tuple2": ("tup2", "L"), "array-of-array": ("arr", ("arr", "L")),
           "map-of-array": ("map", ("arr", "L")), "anyof-then-int": ("anyint", "L"),
-          "array-of-optional": ("arr", ("opt", "L")), "map-of-optional": ("map", ("opt", "L"))}
+          "array-of-optional": ("arr", ("opt", "L")), "map-of-optional": ("map", ("opt", "L")),
+          "optional-union": ("opt", ("anyint", "L"))}
 
 # number-typed documents of several magnitudes (epoch-like ones included: DateTime reads an int between 1e9 and
 # 2e9 as a timestamp, and so does its constructor; a float is neither a str nor an int)
@@ -436,6 +460,8 @@ def image_leaf(leaf, v):
         return v.name
     if leaf == "date":
         return v.strftime("%Y-%m-%d")
+    if leaf == "date-compact":
+        return v.strftime("%Y%m%d")
     if leaf == "datetime":
         return v.strftime("%m/%d/%y %H:%M:%S")
     return v
@@ -518,7 +544,7 @@ def _build_plain(case):
         body[f["name"]] = build_field(f["leaf"], f["wrap"])
         if not f.get("unset"):
             kw[f["name"]] = build_value(f["leaf"], f["wrap"], f["picks"] or [0])
-    body["_required"] = [f["name"] for f in case["fields"] if f["wrap"] != "optional"]
+    body["_required"] = [f["name"] for f in case["fields"] if f["wrap"] not in ("optional", "optional-union")]
     if case.get("ignore_none"):
         body["_ignore_none"] = True
     return type("X", (Structure,), body), kw
@@ -660,7 +686,7 @@ def _ctor_leaves():
         "string-bounded": (lambda: String(minLength=2, maxLength=4, pattern="^[a-z]+$"), ["ab", "abcd"], True),
         "integer-bounded": (lambda: Integer(minimum=0, maximum=9), [0, 9], True),
     }
-    return {**LEAVES, **extra}
+    return {**{k: v for k, v in LEAVES.items() if k not in JSONLIKE_LEAVES}, **extra}
 
 
 CTOR_LEAVES = None
